@@ -181,7 +181,8 @@ theorem ms_drain : ∀ (fuel : Nat) (r : Realm), (drain fuel r).metaS = r.metaS
 theorem ms_stepOp (r : Realm) (op : Op) : (r.stepOp op).metaS = r.metaS := by
   cases op with
   | msg k m => exact ms_recvMsg r k m
-  | drop k => rw [stepOp_drop]; split <;> rfl
+  | drop k => rw [stepOp_drop]; split <;> (try split) <;> rfl
+  | join k isLocal details roles cap => rw [stepOp_join]; split <;> rfl
   | _ => rfl
 
 theorem ms_retryDue (r : Realm) (x : Retry) : (r.retryDue x).metaS = r.metaS := by
